@@ -89,6 +89,52 @@ def unit(f):
     hf = f"impl Field for {F}"
     I(ark, hf, Fn("double", ensures=f"r.val() == madd({P}, self.val(), self.val())", props=("C10",), preamble=bu), header_out=f"impl {F}",
       )
+    # ---- the flag-carrying stream format (C11: "serialisation with flag bits round-trips value and flags"; C02 dependency):
+    # serialize_with_flags writes ser_bytes(value, flags), deserialize_with_flags returns deser_spec of what it reads; the
+    # round trip is lemma_flags_roundtrip (preludes/ark_serialize.rs) over these two contracts.  R31: the stream parameters,
+    # taken by value in the source (`mut reader: R`, `mut writer: W`), are taken by `&mut`: the by-value function is
+    # f(mut r: R) = g(&mut r) with g the text verified here, and only g's contract can speak about the stream afterwards.
+    MB = fp["P"].bit_length()
+    R31 = [("R31", r'\b(?:mut\s+)?reader\s*:\s*R\b', 'reader: &mut R'), ("R31", r'\b(?:mut\s+)?writer\s*:\s*W\b', 'writer: &mut W')]
+    EOK = lambda t, e: f"r == Err::<{t}, SerializationError>(SerializationError::{e})"
+    I(main, f"impl {F}", Fn("MODULUS_BIT_SIZE", as_const=True, props=("C11", "C17"), ensures=f"{F}::MODULUS_BIT_SIZE == {MB}"))
+    hd = f"impl CanonicalDeserializeWithFlags for {F}"
+    I(ark, hd, Fn("deserialize_with_flags", props=("C11", "C02"), preamble=bu,
+                  subst=R31 + [("R27", r'(let out = Self::from_bigint\()', rf"""proof {{ lemma_limbs_bytes(limbs@, bytes@.subrange(0, {n8}));
+                      let sz_ = ser_size::<F>({MB}); let rd_ = old(reader).rest().take(sz_);
+                      assert(bytes@.subrange(0, {n8}) =~= rd_.update(sz_ - 1, rd_[sz_ - 1] & !flags.mask()).take({n8})); }} \1""")],
+                  ensures=f"deser_post::<F>(r, old(reader).rest(), final(reader).rest(), {MB}, {n8}, {P})",
+                  loops={0: f"""invariant n_ == {n64}, src_@.len() == {n8}, i_ <= n_, limbs@.len() == {n64},
+                                  forall|j: int| 0 <= j < i_ ==> limbs@[j] as int == #[trigger] le8_at(src_@, 8 * j),
+                              decreases n_ - i_"""},
+                  ),
+      header_out=f"impl {F}")
+    I(ark, f"impl Valid for {F}", Fn("check", props=("C11",), ensures="r is Ok"), header_out=f"impl {F}")
+    I(ark, f"impl CanonicalDeserialize for {F}", Fn(
+        "deserialize_with_mode", props=("C11", "C02"), subst=R31,
+        preamble=bu + f""" proof {{ let s0_ = reader.rest(); if s0_.len() >= {n8} {{ let s_ = s0_.take({n8}); let b_ = s_[{n8} - 1];
+                      assert(b_ & !0u8 == b_) by(bit_vector); assert(s_.update({n8} - 1, s_[{n8} - 1] & !0u8).take({n8}) =~= s_); }} }}""",
+        ensures=f"""({{ let s0 = old(reader).rest();
+            if s0.len() < {n8} {{ {EOK(F, 'IoError')} }}
+            else if bytes_val(s0.take({n8})) >= {P} {{ {EOK(F, 'InvalidData')} && final(reader).rest() == s0.skip({n8}) }}
+            else {{ r is Ok && r.unwrap().val() == bytes_val(s0.take({n8})) && final(reader).rest() == s0.skip({n8}) }} }})"""),
+      header_out=f"impl {F}")
+    hs = f"impl CanonicalSerializeWithFlags for {F}"
+    I(ark, hs, Fn("serialized_size_with_flags", props=("C11",),
+                  requires=f"{MB} + F::BIT_SIZE as int + 7 <= usize::MAX",
+                  ensures=f"r as int == ser_size::<F>({MB})"), header_out=f"impl {F}")
+    I(ark, hs, Fn("serialize_with_flags", props=("C11", "C03"),
+                  preamble=bu + " broadcast use concat_lemmas;",
+                  subst=R31 + [("R27", r'(let mut bytes = self\.to_bytes_le\(\);)', r'\1 proof { lemma_le_bytes(bytes@); }')],
+                  ensures=f"ser_post::<F>(r, old(writer).out(), final(writer).out(), self.val(), flags, {MB}, {n8})"),
+      header_out=f"impl {F}")
+    hc = f"impl CanonicalSerialize for {F}"
+    I(ark, hc, Fn("serialize_with_mode", props=("C11", "C03"), subst=R31,
+                  preamble=f"""proof {{ broadcast use {f}_abs; assert(pw256({n8}) > {P}) by(compute_only); lemma_le_bytes_val(self.val(), {n8}); let tb_ = le_bytes(self.val(), {n8}); let b_ = tb_[{n8} - 1];
+                      assert(b_ | 0u8 == b_) by(bit_vector); assert(tb_.update({n8} - 1, tb_[{n8} - 1] | 0u8) =~= tb_); }}""",
+                  ensures=f"match r {{ Ok(_) => final(writer).out() == old(writer).out() + le_bytes(self.val(), {n8}), Err(e) => e == SerializationError::IoError }}"),
+      header_out=f"impl {F}")
+    I(ark, hc, Fn("serialized_size", props=("C11",), ensures=f"r == {n8}"), header_out=f"impl {F}")
     # ---- Ord / PartialOrd / Hash of src/fields/<f>/ops.rs: integer ordering, hashing of the canonical bytes (C11)
     opsf = f"src/fields/{f}/ops.rs"
     I(opsf, f"impl Ord for {F}", Fn("cmp", props=("C11",), preamble=bu,
@@ -104,11 +150,13 @@ def unit(f):
       header_out=f"impl {F}")
     u = Unit(name=f"fieldx_{f}",
              preludes=[("common.rs", None), ("field_consts.rs", dict(NW=fp["N64"])), ("field_abs.rs", None), ("std_standins.rs", None),
-                       ("le_lemmas.rs", None), ("ark_bigint.rs", None), ("ladder_lemmas.rs", None), ("pow_lemmas.rs", None), ("chunk_lemmas.rs", None), ("ord_lemmas.rs", None)],
+                       ("le_lemmas.rs", None), ("ark_bigint.rs", None), ("ladder_lemmas.rs", None), ("pow_lemmas.rs", None), ("chunk_lemmas.rs", None), ("ord_lemmas.rs", None),
+                       ("ark_serialize.rs", dict(MB=fp["P"].bit_length(), TOP=1 << (fp["P"].bit_length() - 8 * (fp["N8"] - 1)), PWTOP=hex(256 ** (fp["N8"] - 1))))],
              items=items, lemmas=lem + FX_LEMMAS + f"""
 pub proof fn lemma_pw256_n8() ensures pw256({n8}) % {P} == {W_}int {{ assert(pw256({n8}) % {fp["P"]}int == {W_}int) by(compute_only); }}
 """, params=fp,
-             global_subst=[("R7", r'\bark_ff::BigInt\(', 'BigInt('), ("R7", r'\bSelf::BigInt\b', 'BigInt'), ("R7", r'\bcore::hash::Hasher\b', 'Hasher')])
+             global_subst=[("R7", r'\bark_ff::BigInt\(', 'BigInt('), ("R7", r'\bSelf::BigInt\b', 'BigInt'), ("R7", r'\bcore::hash::Hasher\b', 'Hasher'),
+                           ("R7", r'\bark_std::io::(Read|Write)\b', r'\1')])
     u.raw = [("src/error.rs", "enum", "EncodingError")]
     u.ufcs_fns = ("power",)
     return u
